@@ -156,7 +156,11 @@ fn handle(line: &str) -> String {
             };
             let set = MoveGenerator::compute_legal_moves(&state);
             let v: Vec<String> = set.moves().iter().map(|r| fen_of(&r.1).replace(' ', "_")).collect();
-            format!("{} {}", v.len(), v.join(" "))
+            if v.is_empty() {
+                "0".into()
+            } else {
+                format!("{} {}", v.len(), v.join(" "))
+            }
         }
         "apply" => {
             // apply <raw> <fen...>
